@@ -238,6 +238,38 @@ def gen_values(rng, size, dtype, distinct):
     return [ctok((Fr(k, 8), Fr(0))) for k in ks]
 
 
+LAYOUTS = ['C', 'F', 'strided']
+_LAY_COUNT = {}
+
+
+def next_layout(key, stride=1):
+    """deterministic cycling through the memory layouts per entry point (every stratum is hit)"""
+    k = _LAY_COUNT.get(key, 0)
+    _LAY_COUNT[key] = k + 1
+    return LAYOUTS[(k * stride) % 3]
+
+
+def relayout(arr, layout):
+    """the same logical array in another memory layout: C-contiguous, Fortran-contiguous (what
+    `a.T`-backed or order='F' data looks like) or a strided view into a larger buffer"""
+    arr = np.asarray(arr)
+    if arr.ndim == 0 or layout == 'C':
+        return np.ascontiguousarray(arr)
+    if layout == 'F':
+        return np.asfortranarray(arr)
+    big = np.zeros(tuple(2 * n for n in arr.shape), dtype=arr.dtype)
+    view = big[tuple(slice(None, None, 2) for _ in arr.shape)]
+    view[...] = arr
+    return view
+
+
+def layout_hits(ctx, case, fields):
+    for entry, field in fields:
+        lay = case.get(field, 'C')
+        if lay != 'C':
+            ctx.hit('layout/{}/{}'.format(entry, lay))
+
+
 def values_array(case):
     dims = tuple(len(c) for c in case['coords'])
     dt = case['dtype']
@@ -365,6 +397,8 @@ def interp_configs(ctx):
                     cats=[[cat for _, cat in pl] for pl in pts],
                     single_string=(rng.random() < 0.5),
                     use_out=(rng.random() < 0.5),
+                    vlayout=next_layout('interp-values'), playout=next_layout('interp-points', 2),
+                    olayout=next_layout('interp-out'),
                     flat1d=(rng.random() < 0.5),
                     aseed=rng.getrandbits(30))
         out.append(case)
@@ -452,8 +486,9 @@ def eval_conventions(case, f=None):
     """Run the real code in every calling convention.
     Returns dict conv -> (status, tokens (flat, C order of the mesh))."""
     from odl.discr.grid import sparse_meshgrid
-    if f is None:
-        f = values_array(case)
+    vlay, play, olay = case.get('vlayout', 'C'), case.get('playout', 'C'), case.get('olayout', 'C')
+    f_c = values_array(case) if f is None else np.ascontiguousarray(f)
+    f = relayout(f_c, vlay)
     dt = str(f.dtype) if not case['dtype'].startswith('U') else case['dtype']
     d = len(case['coords'])
     P = [[float(pfr(x)) for x in pl] for pl in case['pts']]
@@ -480,9 +515,9 @@ def eval_conventions(case, f=None):
 
     def mesh_call():
         itp = build_interpolator(case, f)
-        mesh = sparse_meshgrid(*[np.array(p) for p in P])
+        mesh = sparse_meshgrid(*[relayout(np.array(p), play) for p in P])
         if case.get('use_out'):
-            out = garbage(shape)
+            out = relayout(garbage(shape), olay)
             r = itp(mesh, out=out)
             if r is not out:
                 raise AssertionError('out= given but a different object returned')
@@ -494,8 +529,9 @@ def eval_conventions(case, f=None):
         x = np.array(prod_pts, dtype=float).T.reshape(d, len(prod_pts))
         if d == 1 and case.get('flat1d'):
             x = x.reshape(-1)
+        x = relayout(x, play)
         if not case.get('use_out'):
-            out = garbage((len(prod_pts),))
+            out = relayout(garbage((len(prod_pts),)), olay)
             r = itp(x, out=out)
             if r is not out:
                 raise AssertionError('out= given but a different object returned')
@@ -518,10 +554,17 @@ def eval_conventions(case, f=None):
             return np.array(vals, dtype=f.dtype)
         return np.array(vals)
 
+    def mesh_call_c():
+        # the same call on C-contiguous copies of the same data: layout independence
+        itp = build_interpolator(case, f_c)
+        return itp(sparse_meshgrid(*[np.array(p) for p in P]))
+
     guard('mesh', mesh_call)
     guard('array', array_call)
     if len(prod_pts) <= 30 or case.get('all_points'):
         guard('point', point_calls)
+    if (vlay, play, olay) != ('C', 'C', 'C'):
+        guard('mesh~C', mesh_call_c)
     return res, prod_pts, shape
 
 
@@ -631,6 +674,12 @@ def check_interp_case(ctx, case, results, model_out):
         vals = None
         scale = Fr(1)
     tol = tol_for(case, scale)
+    if case.get('api') in ('resampling', 'deform'):
+        layout_hits(ctx, case, [(case['api'] + '-x', 'xlayout'), (case['api'] + '-out', 'olayout'),
+                                ('deform-disp', 'dlayout')])
+    else:
+        layout_hits(ctx, case, [('interp-values', 'vlayout'), ('interp-points', 'playout'),
+                                ('interp-out', 'olayout')])
     cats_hit = set()
     for j in range(len(coords)):
         for x in (sorted(set(pt[j] for pt in ptsF)) if 'plist' in case else [pfr(x) for x in case['pts'][j]]):
@@ -900,6 +949,7 @@ def op_configs(ctx):
                         size *= n
                     out.append(dict(kind='interp', api='resampling', sch=sch, dtype=dt, dom=dom, ran=ran,
                                     vals=gen_values(rng, size, dt, distinct=False),
+                                    xlayout=next_layout('resampling-x'), olayout=next_layout('resampling-out', 2),
                                     single_string=(rng.random() < 0.5), aseed=rng.getrandbits(30)))
                 if set(sch) == {'n'}:
                     dom, ran = gen_space_pair(rng, d, 'int64', False, sch)
@@ -920,6 +970,8 @@ def op_configs(ctx):
                 out.append(dict(kind='interp', api='deform', sch=sch, dtype=dt, dom=dom, disp=disp,
                                 vals=gen_values(rng, size, dt, distinct=False),
                                 single_string=(rng.random() < 0.5), use_out=(rng.random() < 0.5),
+                                xlayout=next_layout('deform-x'), dlayout=next_layout('deform-disp', 2),
+                                olayout=next_layout('deform-out'),
                                 aseed=rng.getrandbits(30)))
     return out
 
@@ -939,7 +991,8 @@ def eval_op_case(case):
         case['ckinds'] = [case['dom']['kind']] * len(cv)
         hs = [Fr(float(c[i + 1])) - Fr(float(c[i])) for c in cv for i in range(len(c) - 1)]
         case['exact'] = all(dyadic(h) and h.numerator == 1 for h in hs)
-        x = dom.element(values_array(case))
+        x = dom.element(relayout(values_array(case), case.get('xlayout', 'C')))
+        x_c = dom.element(np.ascontiguousarray(values_array(case)))
     except Exception as e:  # noqa
         return {'setup': ('err:{}:{}'.format(type(e).__name__, str(e)[:100]), None)}
 
@@ -960,9 +1013,12 @@ def eval_op_case(case):
         except Exception as e:  # noqa
             return {'setup': ('err:{}:{}'.format(type(e).__name__, str(e)[:100]), None)}
         guard('mesh', lambda: op(x).asarray())
+        if case.get('xlayout', 'C') != 'C':
+            guard('mesh~C', lambda: op(x_c).asarray())
 
         def with_out():
-            y = ran.element(np.full(ran.shape, -77 if case['dtype'].startswith(('int', 'uint')) else np.nan))
+            y = ran.element(relayout(np.full(ran.shape, -77 if case['dtype'].startswith(('int', 'uint')) else np.nan,
+                                             dtype=ran.dtype), case.get('olayout', 'C')))
             try:
                 r = op(x, out=y)
             except ValueError as e:
@@ -980,7 +1036,10 @@ def eval_op_case(case):
         try:
             pts = dom.points()
             disp = np.array([[float(pfr(t)) for t in row] for row in case['disp']])
-            field = dom.tangent_bundle.element([row.reshape(dom.shape) for row in disp])
+            dlay = case.get('dlayout', 'C')
+            field = dom.tangent_bundle.element(
+                [dom.element(relayout(row.reshape(dom.shape), dlay)) for row in disp])
+            field_c = dom.tangent_bundle.element([row.reshape(dom.shape) for row in disp])
             moved = pts + disp.T
             case['plist'] = [[frs(Fr(float(t))) for t in pt] for pt in moved]
         except Exception as e:  # noqa
@@ -989,13 +1048,19 @@ def eval_op_case(case):
 
         def call():
             if case.get('use_out'):
-                out = np.full(dom.size, np.nan, dtype=dom.dtype)
+                out = relayout(np.full(dom.size, np.nan, dtype=dom.dtype), case.get('olayout', 'C'))
                 r = linear_deform(x, field, interp, out=out)
                 if not np.shares_memory(r, out):
                     raise AssertionError('out= given but a different buffer returned')
                 return out
             return linear_deform(x, field, interp)
         guard('array', call)
+        # the operator front ends of the same function
+        from odl.deform import LinDeformFixedTempl, LinDeformFixedDisp
+        guard('array+fixedtempl', lambda: LinDeformFixedTempl(x, interp=interp)(field).asarray())
+        guard('array+fixeddisp', lambda: LinDeformFixedDisp(field, interp=interp)(x).asarray())
+        if (case.get('xlayout', 'C'), case.get('dlayout', 'C')) != ('C', 'C'):
+            guard('array~C', lambda: linear_deform(x_c, field_c, interp))
     return res
 
 
@@ -1305,6 +1370,7 @@ def samp_configs(ctx):
                         used = []
                     cplx = dt.startswith('complex')
                     case = dict(kind='sampling', ck=ck, d=d, dtype=dt, space=sp, usage=usage,
+                                playout=next_layout('sampling-points'), olayout=next_layout('sampling-out', 2),
                                 poly=poly_json(gen_poly(rng, d, used, cplx)))
                     if ck == 'vec_branch':
                         case['poly2'] = poly_json(gen_poly(rng, d, used, cplx))
@@ -1394,32 +1460,42 @@ def run_sampling_case(ctx, case):
     shape = tuple(len(c) for c in cv)
     allpts = np.array([[float(x) for x in pt] for pt in pts], dtype=float).T.reshape(len(cv), len(pts))
 
+    play, olay = case.get('playout', 'C'), case.get('olayout', 'C')
+    layout_hits(ctx, case, [('sampling-points', 'playout'), ('sampling-out', 'olayout')])
+
     def garbage(shp):
-        return np.full(shp, np.nan, dtype=dt)
+        return relayout(np.full(shp, np.nan, dtype=dt), olay)
+
+    def the_mesh():
+        # the grid of the space, handed in as non-contiguous / Fortran-ordered arrays
+        if play == 'C':
+            return space.meshgrid
+        from odl.discr.grid import sparse_meshgrid
+        return sparse_meshgrid(*[relayout(c, play) for c in space.grid.coord_vectors])
 
     def run_conv(conv):
         if conv == 'element':
             return space.element(func, **kwargs).asarray()
         sf = sampling_function(func, space.domain, out_dtype=dt)
         if conv == 'mesh':
-            return point_collocation(sf, space.meshgrid, **kwargs)
+            return point_collocation(sf, the_mesh(), **kwargs)
         if conv == 'mesh+out':
             out = garbage(shape)
-            r = point_collocation(sf, space.meshgrid, out=out, **kwargs)
+            r = point_collocation(sf, the_mesh(), out=out, **kwargs)
             if r is not out:
                 raise AssertionError('out= given but a different object returned')
             return out
         if conv == 'array':
-            return sf(allpts, **kwargs)
+            return sf(relayout(allpts, play), **kwargs)
         if conv == 'array+out':
             out = garbage((len(pts),))
-            sf(allpts, out=out, **kwargs)
+            sf(relayout(allpts, play), out=out, **kwargs)
             return out
         if conv == 'array-flat':          # 1d: the n points as a flat (n,) array
-            return sf(allpts[0], **kwargs)
+            return sf(relayout(allpts[0], play), **kwargs)
         if conv == 'array-flat+out':
             out = garbage((len(pts),))
-            sf(allpts[0], out=out, **kwargs)
+            sf(relayout(allpts[0], play), out=out, **kwargs)
             return out
         if conv == 'direct-array':       # the decorated function itself, (d, N) points
             return func(allpts)
@@ -1959,6 +2035,13 @@ MODEL_BRANCHES = ['axis/{}/{}'.format(s_, b) for s_ in 'ln' for b in ('lo', 'hi'
     ['input/accepted', 'input/rejected']
 
 
+LAYOUT_BRANCHES = ['layout/{}/{}'.format(e, l) for e in
+                   ('interp-values', 'interp-points', 'interp-out', 'resampling-x', 'resampling-out',
+                    'deform-x', 'deform-disp', 'deform-out', 'sampling-points', 'sampling-out')
+                   for l in ('F', 'strided')]
+EXPECTED_BRANCHES = MODEL_BRANCHES + LAYOUT_BRANCHES
+
+
 def regenerate(ctx):
     changed = extract_interp.regenerate()
     # where each artefact came from: 'source' (AST, possibly after sound normalisations) or
@@ -1981,7 +2064,7 @@ def run(ctx):
     run_input_classes(ctx)
     run_single_node_axis(ctx)
     run_sampling(ctx)
-    unhit = [b for b in MODEL_BRANCHES if not ctx.branches.get(b)]
+    unhit = [b for b in EXPECTED_BRANCHES if not ctx.branches.get(b)]
     ctx.extra['unhit_model_branches'] = unhit
     if unhit:
         ctx.notes.append('model branches not exercised in this run: {}'.format(unhit))
